@@ -336,6 +336,12 @@ def judge(ctx, spec, out):
             base.update({'kind': kind, 'observed': got})
             base['detail'] = '%s at op %d: %s: fresh process vs this history: %s' % (kind, rec['i'], call_repr(call, 90), canon.diff_text(e, got))
             return base
+        if rec.get('changed_later'):
+            ch = rec['changed_later']
+            base.update({'kind': 'returned-object-changed-later', 'observed': ['ok', ch['now']], 'expected': ['ok', ch['was']]})
+            base['detail'] = ('returned-object-changed-later at op %d: the object returned earlier by %s (op id %s) was changed by %s: %s'
+                              % (rec['i'], ch['f'], ch['id'], call_repr(call, 70), canon.diff_text(['ok', ch['was']], ['ok', ch['now']])))
+            return base
         if rec['post'] != rec['pre']:
             # also when the call raised or was interrupted: a caller's objects are never the library's to edit
             base.update({'kind': 'argument-modified', 'observed': ['args', rec['post']]})
